@@ -19,6 +19,13 @@ Proof. intros a b Ha Hb. unfold gen_cfg, C01Facts.limit_merge; cbn [Chain.limit_
 Lemma gen_facts_ok : facts_ok gen_cfg gen_facts = true.
 Proof. vm_compute. reflexivity. Qed.
 
+(** a CTE is named by a crc32 of the SQL text ITSELF (no case folding / trimming in between) and at least the 8
+    digits the model's "different text => different name" was validated with are kept: the model identifies a name
+    with the content it was hashed from, and _add_ctes_to_expression leaves the other side's main SELECT pointing at
+    a colliding name because the CTE of that name on this side has the same content *)
+Lemma gen_names_are_content_hashes : hash_text_exact = true /\ 9 <= hash_name_chars.
+Proof. split; [reflexivity | vm_compute; repeat constructor]. Qed.
+
 (** * the multiset laws of the operators the methods really build: all multiplicities, rows with NULLs *)
 Theorem C07_laws : forall (a b : list row) (r : row),
   count (bagop (sql_sem (flags MUnion)) a b) r = count a r + count b r
